@@ -30,6 +30,14 @@ def rkey(rng):
     return bytes([rng.choice(b'abkz')]) + bytes(rng.choice(b'abz019_-') for _ in range(rng.randrange(0, 5)))
 
 
+def nonascii_lookalike(rng, base, allowed):
+    """`base` plus a non-ASCII character whose code point has an allowed character as its low byte (U+0165 -> 'e'):
+    a check on byte(rune) alone would let it through"""
+    ch = chr(rng.choice([0x100, 0x200, 0x2100, 0x1f600, 0x300]) + rng.choice(allowed))
+    i = rng.randrange(1, len(base) + 1)
+    return base[:i] + ch.encode('utf-8') + base[i:]
+
+
 def ritem(rng, valid=True):
     k = rng.randrange(4)
     if k == 0:
@@ -42,7 +50,7 @@ def ritem(rng, valid=True):
     if k == 2:
         t = rtoken(rng)
         if not valid and rng.random() < 0.7:
-            t = rng.choice([b'', b'1a', b'a b', b'a"', b'\xc3\xa9', b'a,b', b'-a'])
+            t = rng.choice([b'', b'1a', b'a b', b'a"', b'\xc3\xa9', b'a,b', b'-a', nonascii_lookalike(rng, rtoken(rng), TOKCH)])
         return 't' + hexs(t)
     return 'b' + hexs(rbytes(rng, rng.randrange(0, 10)))
 
@@ -52,7 +60,7 @@ def rpi(rng, valid=True):
     keys = []
     for _ in range(rng.randrange(0, 5)):
         k = rkey(rng)
-        if not valid and rng.random() < 0.2: k = rng.choice([b'', b'A', b'1a', b'a.b', b'a*'])
+        if not valid and rng.random() < 0.2: k = rng.choice([b'', b'A', b'1a', b'a.b', b'a*', nonascii_lookalike(rng, rkey(rng), b'abz019_-')])
         if k not in keys: keys.append(k)
     rng.shuffle(keys)
     parts = [hexs(label)]
@@ -102,6 +110,26 @@ def generate(tier, rng):
                 elif k == 3 and t: del t[i:]
             yield f'sh.parse.pl {hexs(bytes(t))}'
             yield f'sh.parse.ll {hexs(bytes(t))}'
+    # repeated parameter names: with / without values, adjacent or not (must all be refused by the parser)
+    for v in [b'label;n;n', b'label;n;n=5', b'label;n=5;n', b'label;n=1;n=2', b'a;x=1, b;k;y=2;k', b'l;n;m;n', b'l;n;m=1;n=2', b'a;k;k;k', b'a;k="";k', b'a;k=**;k=**', b'a, a', b'a;n, a;n']:
+        yield f'sh.parse.pl {hexs(v)}'
+        yield f'sh.parse.ll {hexs(v)}'
+    for s in seeds:
+        segs = s.split(b';')
+        for _ in range(20 if not thorough else 200):
+            if len(segs) < 2: break
+            i = rng.randrange(1, len(segs))
+            dup = segs[i] if rng.random() < 0.5 else segs[i].split(b'=')[0].split(b',')[0]
+            j = rng.randrange(i, len(segs) + 1)
+            yield f'sh.parse.pl {hexs(b";".join(segs[:j] + [dup] + segs[j:]))}'
+    # non-ASCII look-alikes in tokens / keys / labels (serializer must refuse)
+    for tok in ['caf\u0165', 'x\u212a', 'a\u012db', 'k\u0131', 'z\U0001f661']:
+        t = tok.encode('utf-8')
+        yield f'sh.ser.ll t{hexs(t)}'
+        yield f'sh.ser.pl {hexs(t)}'
+        yield f'sh.ser.pl {hexs(b"ok")};{hexs(t)}'
+        yield f'sh.ser.pl {hexs(b"ok")};{hexs(t)}=i1'
+        yield f'sh.ser.pl {hexs(b"ok")};{hexs(b"k")}=t{hexs(t)}'
     # numbers and byte sequences in depth
     for v in ['0', '-0', '00012', '-', '--1', '1-', '-1a', '18446744073709551616', '-9223372036854775809', '9' * 30, '1.5', '1e3', '+1']:
         yield f'sh.parse.ll {hexs(v.encode())}'
